@@ -43,6 +43,61 @@ def expressions():
     return out
 
 
+def adjacency():
+    """Token-adjacency hazards: every ordered pair of neighbouring operator tokens the expression grammar allows, and the places where
+    two tokens written without a blank would lex as something else (`- --x` vs `-- -x`, `a / *p` vs a comment, `0xe + 1` vs one pp-number,
+    `return 1` vs an identifier).  The source always separates them; what the round trip writes back must lex to the same tokens.
+    (Seeded change C03-b glued a prefix operator to its operand except for equal operators: `- --x` came back as `---x`.)"""
+    out = []
+    PRE = PREOPS + ["sizeof", "&&", "__extension__", "__real__", "(int)"]
+    for o1 in PRE:
+        for o2 in PRE:
+            out.append("%s %s a" % (o1, o2))
+    for o1 in BINOPS + ASGOPS + [",", "?", ":"]:
+        for o2 in PRE:
+            if o1 == "?": out.append("a ? %s b : c" % o2)
+            elif o1 == ":": out.append("a ? b : %s c" % o2)
+            else: out.append("a %s %s b" % (o1, o2))
+    for post in ["++", "--", "[1]", "(b)", ".m", "->m"]:
+        for o in BINOPS + ASGOPS + ["?", ","]:
+            out.append("a%s %s b%s" % (post, o, " : c" if o == "?" else ""))
+            for o2 in ["+", "-", "++", "--", "&", "*"]:
+                out.append("a%s %s %s b%s" % (post, o, o2, " : c" if o == "?" else ""))
+    for lit in ["0xe", "0xE", "0x1e", "1e1", "0x1p1", "1.", ".5", "1.e1", "0xep1", "1", "1u", "0x1F", "'a'", "L'a'", "\"s\"", "L\"s\"", "u8\"s\""]:
+        for o in ["+", "-", "+ +", "- -", "- --", "+ ++", ".m +"]:
+            if o.startswith(".m"):
+                if lit[0] in "0123456789.": continue
+                out.append("s %s %s" % (o, lit))
+            else:
+                out += ["%s %s 1" % (lit, o), "%s %s a" % (lit, o), "a %s %s" % (o, lit), "%s %s %s" % (lit, o, lit)]
+    out += ["a / *p", "a / * p", "a /= *p", "a / /* c */ b", "a - > b ? 1 : 2" if False else "a-- > b", "a - -- b", "a -- - b", "a + ++ b", "a ++ + b", "a ++ + ++ b", "a -- - -- b",
+            "a & & b", "a & && l", "a && & b", "a && && l", "& && l", "&& l - && m", "a < : b" if False else "a < b : c" if False else "a <: 1 :> <: 2 :>",
+            "a = - b", "a = & b", "a = * p", "a = ! b", "a = + b", "a = ++ b", "a = -- b", "a =- b" if False else "a = -b", "a ! = b" if False else "a != b", "! a != ! b", "a == ! b",
+            "a | | b" if False else "a || b", "a | b | c || d", "a ^ ~ b", "~ ~ a", "! ~ ! a", "- + - + a", "+ - + - a", "* & * & a", "& * & * a", "* * * p", "- - - a", "+ + + a", "-- - -- a" if False else "- -- a",
+            "sizeof - a", "sizeof + a", "sizeof * p", "sizeof & a", "sizeof ++ a", "sizeof -- a", "sizeof ! a", "sizeof ~ a", "sizeof sizeof sizeof a", "sizeof ( a ) - 1", "sizeof a - 1",
+            "sizeof \"s\"", "sizeof L\"s\"", "sizeof 'a'", "sizeof 1", "sizeof 1. ", "sizeof .5", "sizeof 0xe", "_Alignof ( int ) - 1"]
+    # __extension__ in front of every kind of expression (the keyword is a token of the expression node itself)
+    for e in EXT_OPERANDS:
+        out += ["__extension__ " + e, "a + __extension__ " + e, "__extension__ (" + e + ")"]
+    return [o for o in out if o]
+
+
+EXT_OPERANDS = ["a", "1", "\"s\"", "'c'", "(a)", "f(a)", "f()", "a[1]", "s.m", "p->m", "a++", "a--", "++a", "-a", "*p", "&a", "!a", "sizeof a", "sizeof(int)", "_Alignof(int)", "(int)a", "(int){ 1 }",
+                "({ a; })", "__real__ z", "__imag__ z", "__builtin_va_arg(ap, int)", "__builtin_offsetof(struct S, m)", "__builtin_choose_expr(1, a, b)", "_Generic(a, int: 1, default: 2)", "__func__", "&&lab",
+                "a * b", "a + b", "a << b", "a < b", "a == b", "a & b", "a && b", "a || b", "a ? b : c", "a = b", "a += b", "a, b"]
+
+
+def adjacency_statements():
+    out = []
+    for v in ["1", "-1", "- 1", "a", "-a", "(a)", "\"s\"", "L\"s\"", "'a'", "L'a'", "u8\"s\"", ".5", "1.", "0xe", "*p", "&a", "!a", "~a", "++a", "--a", "sizeof a", "sizeof(int)", "(int)a", "(int){ 1 }", "_Alignof(int)", "__func__"]:
+        out += ["return %s;" % v, "switch (a) { case %s: ; }" % v if v[0] not in "*&+-(_s" and "a" != v and "\"" not in v and v not in ("!a", "~a") else "", "if (a) b; else %s;" % v, "do %s; while (%s);" % (v, v),
+                "while (%s) %s;" % (v, v), "for (%s; %s; %s) %s;" % (v, v, v, v), "if (%s) %s;" % (v, v), "l: %s;" % v, "{ %s; %s; }" % (v, v), "switch (%s) default: %s;" % (v, v)]
+    out += ["__extension__ %s;" % e for e in EXT_OPERANDS] + ["{ __extension__ %s; }" % e for e in EXT_OPERANDS] + ["if (a) __extension__ %s; else __extension__ %s;" % (e, e) for e in EXT_OPERANDS[:12]]
+    out += ["goto l;", "goto *p;", "goto * p;", "goto *&&l;", "goto * && l;", "return;", "do ; while (1);", "do do ; while (1); while (1);", "if (a) if (b) ; else ; else ;", "else_: ;" if False else "l: l2: ;",
+            "switch (a) { case 1: case 2: case -3: case 'a': case 1 ... 2: default: ; }", "switch (a) { case 1 ... 0xe: ; }", "switch (a) { case 0xe ... 0xf: ; }", "switch (a) { case 'a' ... 'z': ; }"]
+    return [o for o in out if o]
+
+
 def statements():
     E = "a = b"
     out = [";", "a;", "a = 1;", "{ }", "{ ; }", "{ a; b; }", "{ { } }", "{ int x; x = 1; }", "{ int x = 1, y; { int z; } }",
@@ -111,6 +166,8 @@ def units():
 
 def corpus():
     c = [("e", e) for e in expressions()] + [("s", s) for s in statements()] + [("d", d) for d in declarations()]
+    c += [("e", e) for e in adjacency()] + [("a", "void f(void) { x = %s; }" % e) for e in adjacency()] + [("s", s) for s in adjacency_statements()]
+    c += [("a", "int f(void) { %s }" % s) for s in adjacency_statements()]
     c += [("a", d) for d in declarations()] + [("a", u) for u in units()]
     c += [("a", "\n".join(declarations()[i::17])) for i in range(17)]
     return c
